@@ -45,6 +45,7 @@ def run(ctx):
     # soft deadline: no new harness process is started after it; whatever was not started is reported as a cap
     soft = min(ctx.deadline - 75, ctx.t0 + (170 if quick else 1560))
     skipped = {}
+    all_samples = []
     lock = threading.Lock()
 
     def job(group, binary, args, tag):
@@ -53,9 +54,10 @@ def run(ctx):
                 with lock:
                     skipped[group] = skipped.get(group, 0) + 1
                 return
-            ctx.run_harness(binary, args, tag=tag)
+            recs = ctx.run_harness(binary, args, tag=tag)
             with lock:
                 ctx.stat("sweeps_completed:" + group, 1)
+                all_samples.extend(r["v"] for r in recs if r.get("t") == "sample")
         return f
 
     jobs = []
@@ -89,7 +91,24 @@ def run(ctx):
         jobs.append(job("sanitizer", asan, ["--noref", "--scale", fn, "0", "8192"], "c09-asan"))
     for fn in BINARY:
         jobs.append(job("sanitizer", asan, ["--noref", "--pairs", fn, "alpha1", "1", "0", "1"], "c09-asan"))
+    jobs.append(job("sanitizer", asan, ["--noref", "--triples", "cube0", "1", "0", "1"], "c09-asan"))
     jobs.append(job("info", fast, ["--info"], "c09"))
+    # 6b. three-argument hypot: alphabet-0 cube with integer verdict + MPFR on every triple; derived family (z around 2^-k max(|x|,|y|),
+    #     k = 10..20, three positions) over all alphabet-1 pairs; all exact-tie pairs of sqrt(x^2+y^2) x tiny z
+    for k in range(16):
+        jobs.append(job("hypot3-cube0", fast, ["--triples", "cube0", "0", str(k), "16"], "c09"))
+    if quick:
+        for k in range(8):
+            jobs.append(job("hypot3-derived", fast, ["--triples", "derived", "alpha1", str(k), "8"], "c09"))
+        for k in range(8):
+            jobs.append(job("hypot3-ties", fast, ["--triples", "ties", "list", str(k), "8"], "c09"))
+    else:
+        for k in range(64):
+            jobs.append(job("hypot3-ties-full", fast, ["--triples", "ties", "full", str(k), "64"], "c09"))
+        for k in range(64):
+            jobs.append(job("hypot3-derived-alpha2", fast, ["--triples", "derived", "alpha2", str(k), "64"], "c09"))
+        for k in range(64):
+            jobs.append(job("hypot3-cube1", fast, ["--triples", "cube1", "1", str(k), "64"], "c09"))
     # 7. thorough: ALL 2^32 ordered pairs of every binary function
     if not quick:
         for fn in BINARY:
@@ -97,6 +116,14 @@ def run(ctx):
                 jobs.append(job("pairs-full:" + fn, fast, ["--pairs", fn, "full", "1", str(k), str(FULL_CHUNKS)], "c09"))
 
     vlib.parallel(jobs, workers=min(16, vlib.NCPU))
+
+    # samples: ctx keeps the first 12 it sees (completion order); show one or two of every kind of case instead
+    picked = []
+    for prefix, n in (("exp(", 1), ("tgamma(", 2), ("sincos.cos(", 1), ("round(", 1), ("modf(", 1), ("lrint(", 1), ("ldexp(", 1), ("pow(", 1), ("atan2(", 1),
+                      ("remquo(", 1), ("hypot(", 4)):
+        picked += sorted(set(x for x in all_samples if x.startswith(prefix)))[:n]
+    if picked:
+        ctx.samples[:] = picked
 
     for group, n in sorted(skipped.items()):
         ctx.cap("deadline: %d harness run(s) of group '%s' not started (%d completed)" % (n, group, ctx.stats.get("sweeps_completed:" + group, 0)))
@@ -111,7 +138,13 @@ def run(ctx):
         "NaN/infinity/exact-zero results exact; (2) all 2^16 inputs of ceil floor trunc round rint nearbyint frexp modf ilogb logb and all finite inputs of lround llround lrint llrint against the float functions; "
         "(3) ldexp scalbn scalbln on all halves x {-60..60, INT_MIN, INT_MAX}; (4) hypot pow atan2 fmod remainder remquo fdim fmax fmin nextafter copysign on all ordered pairs of a 1000-value boundary alphabet "
         "(every exponent x 16 mantissas x sign + inf/NaNs) with MPFR deciding every pair, and of a 3976-value alphabet (every exponent x 64 mantissas x sign + inf/NaNs) with an exact/long-double reference and MPFR "
-        "for every pair within 2^-26 ulp of a rounding boundary, every mismatch and every accepted 1-ULP difference" +
+        "for every pair within 2^-26 ulp of a rounding boundary, every mismatch and every accepted 1-ULP difference; "
+        "(4c) three-argument hypot(x,y,z), verdict = correctly rounded sqrt(x^2+y^2+z^2) by exact 128-bit integer arithmetic (cross-checked with MPFR): all ordered triples of a 315-value alphabet "
+        "(every exponent x mantissas {0,1,0x1FF,0x200,0x3FF} x sign, +-inf, NaNs), " +
+        ("for all ordered pairs of the 1000-value alphabet z = the halves around 2^-k max(|x|,|y|), k = 10..20 (z0-1, z0, z0+1, -z0) in all three argument positions, and for all 43558 ordered pairs (x,y) whose "
+         "sqrt(x^2+y^2) is exactly half way between two halves (found by integer search) z in {+-0, all subnormals, 0x0400, 0x0401, halves around 2^-k max, k = 1..40} in all three positions" if quick else
+         "all ordered triples of the 1000-value alphabet, the derived family (z around 2^-k max(|x|,|y|), k = 10..20, three positions) over all ordered pairs of the 3976-value alphabet, and for all 43558 exact-tie pairs "
+         "(x,y) ALL 2^16 z in position (x,y,z) plus the tiny-z list in the other two positions") +
         ("" if quick else "; (5) ALL 2^32 ordered pairs of each of these 11 binary functions, same fast reference + MPFR scheme") +
         ". distinct_nontrivial = cases whose reference result is finite, non-zero and different from the argument(s) (for integer-valued results: different from the argument); every (function, argument) is visited once, so cases are distinct by construction; "
         "the alphabet sweeps overlap each other (and the full sweep) by design and are counted as evaluated.")
@@ -121,7 +154,8 @@ def run(ctx):
         "NaN results are judged as 'is a NaN' (sign and payload free); the sign of fmax/fmin(+-0, -+0) is free (C leaves it open)",
         "remquo: value judged exactly, quo judged for sign and the low 3 bits as C requires; not judged when C leaves quo unspecified (x infinite/NaN, y zero/NaN)",
         "lround/llround/lrint/llrint only on finite inputs (C leaves the rest unspecified); frexp exponent only for finite inputs",
-        "three-argument hypot, nexttoward, fma and sqrt are not part of this check (fma/sqrt: C08); scalbln with exponents beyond int is reported as information only",
+        "three-argument hypot is decided over alphabets and derived families (stated in rule), not over all 2^48 triples; a triple that belongs to several families is evaluated in each but counted once (conservatively) in distinct_nontrivial",
+        "nexttoward, fma and sqrt are not part of this check (fma/sqrt: C08); scalbln with exponents beyond int is reported as information only",
         "g++ 12 -O2 on x86-64 (plus an ASan/UBSan-bounds -O1 build over all unary inputs and the alphabet-1 pairs)",
     ]
     if quick:
